@@ -16,6 +16,7 @@ _PINNED = {
     'MKL_NUM_THREADS': '1',
     'NUMEXPR_NUM_THREADS': '1',
     'PYTHONDONTWRITEBYTECODE': '1',
+    'PYTHONWARNINGS': 'ignore',
 }
 
 
